@@ -158,10 +158,19 @@ ada_really_inline uint64_t try_parse_ipv4_avx512(const char* data,
   if ((is_digit | is_dot) != live) {
     return ipv4_fast_fail;
   }
+  // The convert step trusts the structure, so it is validated here: no leading
+  // dot, no empty part ("10..2.3"), and at most three digits per part
+  // ("1.2.1000.3") -- otherwise the general parser decides.
+  const unsigned dots = static_cast<unsigned>(is_dot);
+  const unsigned digits = static_cast<unsigned>(is_digit);
+  if ((dots & 1u) != 0 || (dots & (dots >> 1)) != 0 ||
+      (digits & (digits >> 1) & (digits >> 2) & (digits >> 3)) != 0) {
+    return ipv4_fast_fail;
+  }
   const unsigned dot_count =
       static_cast<unsigned>(_mm_popcnt_u32(static_cast<unsigned>(is_dot)));
   size_t effective_len = len;
-  if (dot_count == 3) {
+  if (dot_count == 3 && data[len - 1] != '.') {
     // ok
   } else if (dot_count == 4 && data[len - 1] == '.') {
     effective_len = len - 1;  // strip trailing dot for convert
